@@ -364,7 +364,8 @@ def setup(rec, reach):
     core.wrap(M, "all_dot_brackets", rec, post=_post_all, label="Mapping2D3D.all_dot_brackets")
     core.wrap(M, "strands_sequences", rec, post=_post_strands, label="Mapping2D3D.strands_sequences")
     for name in ("base_pairs", "_generated_bpseq_data", "_Mapping2D3D__generate_bpseq", "strands_sequences", "extended_dot_bracket", "dot_bracket", "all_dot_brackets", "_Mapping2D3D__generate_dot_bracket_per_strand"):
-        reach.add(M.__dict__[name], f"Mapping2D3D.{name.replace('_Mapping2D3D', '')}")
+        if name in M.__dict__:  # private helpers may be refactored away: the reach map then simply has no entry for them
+            reach.add(M.__dict__[name], f"Mapping2D3D.{name.replace('_Mapping2D3D', '')}")
 
 
 STRUCTS = ["tests/1A1T_1_B.cif", "tests/1E7K_1_C.cif", "tests/4WTI_1_T-P.cif", "tests/4gqj-assembly1.cif", "tests/1ehz-assembly-1.cif", "tests/1DFU_1_M-N.cif",
@@ -411,6 +412,11 @@ def cases(shard, nshards, seed, tier):
         for flags in ([], ["-e"], ["-a"], ["-f"], ["-f", "-e"]):
             if mine():
                 yield {"family": "cli-vs-library", "file": fn, "ops": ops, "flags": flags}
+    # the external-tool route: two different FR3D listings for one structure imported one after the other in this
+    # process; each mapping must be the mapping of the pairs its own listing names
+    for j, fn in enumerate(STRUCTS):
+        if (tier != "quick" or j % 2 == 0) and mine():
+            yield {"family": "adapter-two-listings", "file": fn, "ops": [], "gaps": j % 4 == 0}
     n = 600 if tier == "quick" else 15000
     for i in range(n):
         if mine():
@@ -551,9 +557,54 @@ def _cli_vs_library(case, rec):
         shutil.rmtree(d, ignore_errors=True)
 
 
+def _adapter_two_listings(case, rec):
+    import tempfile
+
+    from rnapolis import adapter, annotator, tertiary
+
+    seed = os.environ.get("VERIF_SEED", "0")
+    s = gen3d.load(case["file"])
+    try:
+        bi = annotator.extract_base_interactions(s)
+    except Exception as e:
+        rec.undecided("adapter.mapping-is-of-its-own-listing", f"annotation raised {type(e).__name__}")
+        return
+    pairs = [p for p in bi.basePairs if p.nt1.auth is not None and p.nt2.auth is not None]
+    if len(pairs) < 4:
+        rec.skip("adapter.mapping-is-of-its-own-listing", "fewer than four pairs with author identifiers")
+        return
+    rng = random.Random(f"{seed}:C06:adapter:{case['file']}")
+    first = pairs
+    second = [p for p in pairs if rng.random() < 0.5] or pairs[:1]
+
+    def unit(r):
+        a = r.auth
+        return "|".join(["XXXX", "1", a.chain, a.name, str(a.number)] + (["", "", a.icode] if a.icode else []))
+
+    rec.mark_nontrivial(True)
+    for which, lst in (("first", first), ("second", second), ("first-again", first)):
+        fd, path = tempfile.mkstemp(suffix=".txt", prefix="vmon-c06-")
+        with os.fdopen(fd, "w") as fh:
+            for p in lst:
+                fh.write(f"{unit(p.nt1)}\t{p.lw.value}\t{unit(p.nt2)}\t0\n")
+        _cur["ctx"] = {"file": case["file"], "route": "adapter", "listing": which, "pairs-listed": len(lst), "gaps": case["gaps"]}
+        try:
+            s2d, dbs, m = adapter.process_external_tool_output(s, path, adapter.ExternalTool.FR3D, None, case["gaps"], False)
+            got = str(m.bpseq)
+            want = str(tertiary.Mapping2D3D(s, lst, [], case["gaps"]).bpseq)
+        except Exception as e:
+            rec.violation("adapter.no-crash", {"ctx": _cur["ctx"], "exception": repr(e)[:300]}, mechanism=f"crash:{type(e).__name__}")
+            continue
+        finally:
+            os.remove(path)
+        rec.check("adapter.mapping-is-of-its-own-listing", got == want, lambda: {"ctx": _cur["ctx"], "paired-lines": [sum(1 for l in t.splitlines() if not l.endswith(" 0")) for t in (got, want)]})
+
+
 def run_case(case, rec):
     if case["family"] == "cli-vs-library":
         return _cli_vs_library(case, rec)
+    if case["family"] == "adapter-two-listings":
+        return _adapter_two_listings(case, rec)
     from rnapolis import annotator, tertiary
 
     seed = os.environ.get("VERIF_SEED", "0")
